@@ -361,3 +361,14 @@ def run(ck, prog):
     from sa.builders import check_builders
     check_builders(ck, prog, r"^neighbors::knn_(classifier|regressor)::KNN(Classifier|Regressor)Parameters$")
     ck.floor("E2-builder", 8)
+
+
+# ------------------------------------------------------------------ generic: rows/cols (outer/inner) mix-up of locally allocated buffers
+_run_pre_dimension = run
+DIMENSION_FILES = ['src/algorithm/neighbour/cover_tree.rs', 'src/algorithm/neighbour/linear_search.rs', 'src/algorithm/neighbour/mod.rs', 'src/algorithm/sort/heap_select.rs', 'src/neighbors/knn_classifier.rs', 'src/neighbors/knn_regressor.rs', 'src/neighbors/mod.rs']
+
+
+def run(ck, prog):
+    _run_pre_dimension(ck, prog)
+    from sa import dimension
+    dimension.run_rule(ck, prog, set(DIMENSION_FILES))
